@@ -220,7 +220,7 @@ impl Check for ManagerExactlyOnce {
             ];
         }
         case.timeout_ms = 10 + case.timeout_ms % 4991;
-        case.requests.truncate(32);
+        case.requests.truncate(96);
         let t = case.timeout_ms;
         for r in &mut case.requests {
             r.send_ms %= 3 * t;
@@ -243,10 +243,10 @@ impl Check for ManagerExactlyOnce {
             Tier::Quick => 16usize,
             Tier::Thorough => 32usize,
         };
-        (simple_world(2..=3, 0..3), any::<u8>(), 10u32..=5000, prop::collection::vec(req_script(), 1..=max))
-            .prop_map(|(defs, exchange_sel, timeout_ms, reqs)| {
+        (simple_world(2..=3, 0..3), any::<u8>(), 10u32..=5000, prop::collection::vec(req_script(), 1..=max), prop_oneof![19 => Just(0usize), 1 => 33usize..70])
+            .prop_map(|(defs, exchange_sel, timeout_ms, reqs, burst)| {
                 let t = timeout_ms as u64;
-                let requests = reqs
+                let mut requests: Vec<ReqScript> = reqs
                     .into_iter()
                     .map(|(open, inst_sel, send_pm, delay_pm, resp, retry_of, shared_cid)| {
                         let send_ms = (send_pm as u64 * 3 * t / 3000) as u32;
@@ -261,6 +261,10 @@ impl Check for ManagerExactlyOnce {
                         ReqScript { open, inst_sel, send_ms, delay_ms, resp, retry_of, shared_cid }
                     })
                     .collect();
+                // now and then a burst: dozens of requests outstanding at once (most never answered)
+                for k in 0..burst {
+                    requests.push(ReqScript { open: k % 4 != 3, inst_sel: k as u8, send_ms: (k % 3) as u32, delay_ms: if k % 5 == 0 { Some(1 + k as u32 % 7) } else { None }, resp: Resp::Ok { filled: 0 }, retry_of: None, shared_cid: false });
+                }
                 ManagerCase { defs, exchange_sel, timeout_ms, requests }
             })
             .boxed()
@@ -509,6 +513,7 @@ impl Check for ManagerExactlyOnce {
         rep.class_if(responses > 0, "has_response");
         rep.class_if(out_of_send_order, "answered_out_of_send_order");
         rep.class_if(max_outstanding >= 3, "three_or_more_outstanding");
+        rep.class_if(max_outstanding > 32, "more_than_32_outstanding");
         rep.class_if(ex_idx.index() > 0, "manager_of_non_first_exchange");
         rep.class_if(reqs.iter().any(|r| r.delay_ms.is_none()), "client_never_answers");
         rep.class_if(reqs.iter().any(|r| r.nth > 0), "cancel_repeated_for_same_order");
@@ -520,7 +525,7 @@ impl Check for ManagerExactlyOnce {
 }
 
 pub fn run(ctx: &mut Ctx) {
-    ctx.rule = "manager_exactly_once: 2..3 exchanges, the manager serves a generated one; timeout T in [10 ms, 5 s]; 1..16|32 requests (65% open, 35% cancel; 40% of the cancels repeat an earlier cancel's order id once that one is resolved) with send offsets in [0,3T], client delay in [0,2T] or never (15%), |delay - T| >= 1 ms; responses: ok (open with fill 0..4 of 4, i.e. incl. fully filled), rejected naming an asset of the exchange, connectivity error. Run under tokio's paused clock. non-trivial = >= 3 requests outstanding at once AND >= 1 timeout AND >= 1 in-time response AND at least one answer out of send order; distinct by hash of the case.".into();
+    ctx.rule = "manager_exactly_once: 2..3 exchanges, the manager serves a generated one; timeout T in [10 ms, 5 s]; 1..16|32 requests (plus, in one case of twenty, a burst of 33..69 requests within 2 ms, most never answered) (65% open, 35% cancel; 40% of the cancels repeat an earlier cancel's order id once that one is resolved) with send offsets in [0,3T], client delay in [0,2T] or never (15%), |delay - T| >= 1 ms; responses: ok (open with fill 0..4 of 4, i.e. incl. fully filled), rejected naming an asset of the exchange, connectivity error. Run under tokio's paused clock. non-trivial = >= 3 requests outstanding at once AND >= 1 timeout AND >= 1 in-time response AND at least one answer out of send order; distinct by hash of the case.".into();
     ctx.assumptions = vec![
         "tokio test-util paused clock: virtual time advances only when every task is idle".into(),
         "client responses name assets/instruments known to the exchange's map (an un-indexable response is filtered by design and out of scope)".into(),
